@@ -495,6 +495,81 @@ def h_name(c, chain='DN', shape='xxx', dirspec=None, sigma='base'):
 
 
 # ------------------------------------------------------------------------------
+# H1b: a sequence of downloads through ONE SharesManager / ONE chain of strategy objects (the normal case:
+# whatever a strategy remembers between calls is part of the run)
+# ------------------------------------------------------------------------------
+
+def h_sequence(c, chain='DN', shapes=('c.c', 'c.c'), dirs=(('S',), ('S', 'N1')), sigma='base', part=None):
+    """calls 1..k of TransferManager._prepare_download_path on the same manager objects, each with its own
+    symbolic remote path (equal names, equal stems with different extensions, unrelated names are the solver's
+    choice).  The directory is filled before the first call with entries shaped around EACH call's candidate
+    (dirs[k] = templates relative to remote k; all characters symbolic, all names pairwise distinct); after each
+    call the chosen path is created as a file, as the download would do with open(..., 'ab').  Every call is
+    judged like a single download, freshness at the moment of its own choice."""
+    sstr.use_alphabet(ALPHABETS[sigma])
+    be = ModelDir() if c.symbolic else DiskDir()
+    try:
+        remotes = [build_remote(c, sh, base=f'r{k}_') for k, sh in enumerate(shapes)]
+        if part is not None:
+            # partition of the input space over several jobs (their union is everything): do the first two
+            # remote paths start with the same character, and does the first pre-existing entry equal the first name?
+            first_eq = sstr.eq(remotes[0][:1], remotes[1][:1])
+            c.assume(first_eq if part[0] == '=' else (Not(first_eq) if c.symbolic else not first_eq))
+        names, assumptions = [], []
+        for k, (remote, tpls) in enumerate(zip(remotes, dirs)):
+            parts = reference_parts(c, remote)
+            cand = parts[-1] if parts else 'a'
+            stem, ext = sstr.p_splitext(cand) if c.symbolic else posixpath.splitext(cand)
+            for i, t in enumerate(tpls):
+                names.append(make_entry(c, f'q{k}e{i}', t, len(cand), len(stem), len(ext)))
+        assumptions.extend(_valid_name(c, n) for n in names)
+        assumptions.extend((Not(sstr.eq(a, b)) if c.symbolic else a != b) for a, b in itertools.combinations(names, 2))
+        if part is not None and len(part) > 1 and names:
+            parts0 = reference_parts(c, remotes[0])
+            taken = sstr.eq(names[0], parts0[-1]) if parts0 else False
+            assumptions.append(taken if part[1] == '=' else (Not(taken) if c.symbolic else not taken))
+        if assumptions:
+            c.assume(And(*assumptions) if c.symbolic else all(assumptions))
+        for n in names:
+            be.add_file(n)
+        if not c.symbolic:
+            c.note('remote paths', remotes, 'download directory before', sorted(_tree(be.dl)))
+        sm, tm = make_managers(be, chain)        # one SharesManager, one list of strategy objects for all calls
+        log = []
+        observe_choices(c, be, sm, log)
+        env = Env(c, be)
+        with env:
+            for k, remote in enumerate(remotes):
+                transfer = Transfer(f'user{k}', remote, TransferDirection.DOWNLOAD)
+                loop = VLoop()
+                before = len(log)
+                try:
+                    loop.run_until_complete(tm._prepare_download_path(transfer))
+                except Exception as e:
+                    if not code_raised(e):
+                        raise
+                    if len(log) == before:
+                        c.reach('no_path:' + type(e).__name__)
+                        c.note('no path chosen', repr(remote), repr(e))
+                        return
+                    c.note('directory not created', repr(e))
+                finally:
+                    loop.cleanup()
+                if len(log) != before + 1:
+                    raise symex.HarnessError('calculate_download_path was not called exactly once')
+                d, f, existed = log[-1]
+                judge(c, be, chain, d, f, existed, transfer.local_path, ctx_sig=['sequence', k + 1])
+                try:
+                    env.open_append(transfer.local_path)     # the download creates its file
+                except OSError as e:
+                    c.note('file not created', repr(e))
+                    return
+        c.reach('sequence_end')
+    finally:
+        be.cleanup()
+
+
+# ------------------------------------------------------------------------------
 # H2: 2..3 downloads whose start-ups interleave (real _download_file on the virtual loop)
 # ------------------------------------------------------------------------------
 
@@ -680,7 +755,8 @@ META = {
     'functions': [UT.split_remote_path, NM.DefaultNamingStrategy.apply, NM.KeepDirectoryStrategy.apply,
                   NM.DuplicateNamingStrategy.should_be_applied, NM.NumberDuplicateStrategy.apply, NM.chain_strategies,
                   SM.SharesManager.calculate_download_path, SM.SharesManager.get_download_directory, SM.SharesManager.create_directory,
-                  TMm.TransferManager._prepare_download_path, TMm.TransferManager._download_file],
+                  TMm.TransferManager._prepare_download_path, TMm.TransferManager._download_file,
+                  'state kept by the strategy objects between calls (harness sequence: the same SharesManager.naming_strategies list, built by the real constructors, serves every call of a path)'],
     'stubs': ['aioslsk.utils.re / aioslsk.naming.re -> engine.sstr.ReShim: CPython\'s own re._parser parse tree, interpreted by a backtracking matcher with '
               'sre priorities that forks on each character test (validated against re on all strings <= 3 over a 12-character alphabet at start-up)',
               'aioslsk.naming.os / aioslsk.transfer.manager.os -> engine.sstr.OsShim: transcriptions of posixpath.join/split/splitext (validated against '
@@ -702,14 +778,16 @@ META = {
                        'U+FE52 (look-alikes of / \\ .), U+0301 with "e" (decomposed letter) and U+FB01 (ligature)',
                        'every character of every pre-existing entry of the download directory and of its sub-directory (free; only " (", ")" of numbered-copy templates are literal)',
                        'the number inside a numbered copy (digits symbolic; concretised by forking where the code hashes it)'],
-    'discriminants': ['chain of strategies (default chain, the 6 orders of the three shipped strategies, D / DK / KD)', 'length of the remote path / shape (which positions may be separators)',
+    'discriminants': ['number of consecutive downloads through one SharesManager / one chain of strategy objects (sequence harness: 2, thorough 3) and the job partition (first characters of the two remote paths equal or not, first entry equal to the first name or not; the union is unrestricted in the thorough tier)', 'chain of strategies (default chain, the 6 orders of the three shipped strategies, D / DK / KD)', 'length of the remote path / shape (which positions may be separators)',
                       'number and template of pre-existing entries, listing order', 'which ready task continues (concurrent harness)', 'staggered or simultaneous start'],
     'bounds': {'quick': {'free_form_remote_path_len': '0..5 (all 10 chains)', 'structured': '6 shapes: up to 4 components, 1..2 separators, @@ / drive prefixes',
                          'dir_entries': '0..3 per directory (+ one job with 4), candidate name length 1..3, one symbolic sub-directory',
-                         'concurrent_downloads': 2, 'job_time_budget_s': 120},
+                         'concurrent_downloads': 2, 'job_time_budget_s': 120,
+                         'sequence': '2 downloads on one manager, names c.c / c + c.c, entries S | S,N1 per call; for c.c,c.c only the half where the first entry equals the first name'},
                'thorough': {'free_form_remote_path_len': '0..8 (all 10 chains)', 'structured': '15 shapes up to 14 characters',
                             'dir_entries': '0..4 per directory, both listing orders, candidate name length 1..4', 'concurrent_downloads': '2..3',
-                            'job_time_budget_s': 900, 'second_engine': 'CrossHair, 3 contracts, 10 s each'}},
+                            'job_time_budget_s': 900, 'second_engine': 'CrossHair, 3 contracts, 10 s each',
+                            'sequence': '2..3 downloads on one manager (DN all shapes; DKN, KDN the basic one), names up to 4 characters, up to 2 entries per call, all partitions'}},
     'outside': ['characters outside Σ and names longer than the bound (ENAMETOOLONG)', 'Windows path semantics (ntpath, drive-relative paths, reserved names, case-insensitive '
                 'directories): the model is POSIX; a backslash left inside a name is nevertheless reported', 'symbolic links inside the download directory',
                 'chains without DefaultNamingStrategy (nothing derives a file name) and user-written strategies',
@@ -883,6 +961,15 @@ def jobs(tier):
     for chain in DUP_CHAINS:
         for n in range(1, (3 if q else 6) + 1):
             add('name', h_name, chain=chain, shape='x' * n, dirspec={'root': ['S'], 'sub': ['S']})
+    # (b2) sequences on one SharesManager / one chain of strategy objects
+    seqs = [(['c.c', 'c.c'], [['S'], ['S', 'N1']]), (['c', 'c.c'], [['S'], ['S', 'N1']])]
+    if not q:
+        seqs += [(['c.c', 'c', 'c.c'], [['S'], [], ['S', 'N1']]), (['c.cc', 'c.c'], [['S'], ['S', 'N1']])]
+    for chain in (['DN'] if q else ['DN', 'DKN', 'KDN']):
+        for shapes, dirs in (seqs if chain == 'DN' else seqs[:1]):
+            # quick: for the larger shape only the half in which the first call really is a duplicate
+            for part in (('==', '!=') if (q and shapes[0] != 'c') else ('==', '=!', '!=', '!!')):
+                add('sequence', h_sequence, requires=['sequence_end'], chain=chain, shapes=shapes, dirs=dirs, part=part)
     # (c) concurrent downloads
     for chain in (['DN', 'DKN'] if q else ['DN', 'DKN', 'KDN']):
         shape_sets = [['c', 'c'], ['cscc', 'cscc']] if q else [['c', 'c'], ['cc', 'cc'], ['cscc', 'cscc'], ['xx', 'xx'], ['xxx', 'xxx']]
